@@ -119,12 +119,13 @@ HandleVC(R, n, m) ==
 VotesOKCode(m, h) ==
   /\ IsQuorum(h, {m.votes[i].s : i \in DOMAIN m.votes})
   /\ \A i \in DOMAIN m.votes : m.votes[i].h = m.h /\ (On("nv_vote_view") => m.votes[i].v = m.v) /\ (On("nv_vote_sig") => m.votes[i].sig) /\ m.votes[i].ht = "VC"
+                               /\ m.votes[i].inst = m.inst        \* (H17) votes signed for another instance are not votes of this NEW_VIEW
   /\ Distinct([i \in DOMAIN m.votes |-> m.votes[i].s])
 
 HandleNV(R, n, m) ==
   LET ns == R.ns IN
   IF ns.view > m.v \/ (On("nv_sig") /\ ~m.sig) \/ m.ht # "NV" \/ (On("nv_leader") /\ m.s # LeaderM(ns.h, m.vm)) \/ ~VotesOKCode(m, ns.h)
-     \/ m.pp.v # m.v \/ m.pp.h # m.h THEN R
+     \/ m.pp.v # m.v \/ m.pp.h # m.h \/ m.pp.inst # m.inst THEN R
   ELSE LET withP == {i \in DOMAIN m.votes : m.votes[i].proof.has}
            noP   == withP = {}
            li    == IF noP THEN 0 ELSE CHOOSE i \in withP : \A j \in withP : m.votes[j].proof.ppv <= m.votes[i].proof.ppv
